@@ -65,7 +65,7 @@ pub fn gen_wire(rng: &mut Rng, w: &World, foreign: &NamespaceSecret, now: u64) -
     let base = sign(&w.ns, &w.authors[au], &key, hash, len, ts);
     let sibling = sign(&w.ns, &w.authors[au], &gen_key(rng), HASH_B, 2, ts + 1);
     let mut t = base.clone();
-    let kind = match rng.below(21) {
+    let kind = match rng.below(23) {
         0..=5 => "valid",
         6 => { t.author_sig[rng.below(64) as usize] ^= 1 << rng.below(8); "flip_author_sig" }
         7 => { t.ns_sig[rng.below(64) as usize] ^= 1 << rng.below(8); "flip_ns_sig" }
@@ -105,6 +105,18 @@ pub fn gen_wire(rng: &mut Rng, w: &World, foreign: &NamespaceSecret, now: u64) -
         16 => { t = sign(&w.ns, &w.authors[au], &key, empty_hash(), 1 + rng.below(3), ts); "empty_hash_nonzero_len" }
         17 => { t = sign(&w.ns, &w.authors[au], &key, HASH_A, 0, ts); "zero_len_nonempty_hash" }
         18 => { let n = rng.below(64) as usize; t.id.truncate(n); "short_id" }
+        20 | 21 => {
+            // an id that only resembles the signer's: the first 8-24 bytes of the author (or
+            // namespace) id are the signer's, the rest is not, and the entry is signed by the real
+            // keys over exactly these bytes (a cache keyed by less than the whole id would be fooled)
+            let keep = 8 + 8 * rng.below(3) as usize;
+            let off = if rng.chance(3, 4) { 32 } else { 0 };
+            for b in t.id[off + keep..off + 32].iter_mut() { *b = rng.below(256) as u8; }
+            let c = canon(&t);
+            t.ns_sig = w.ns.sign(&c).to_bytes();
+            t.author_sig = w.authors[au].sign(&c).to_bytes();
+            "id_resembles_signer"
+        }
         19 => {
             // far beyond the bound: the ends of the u64 range and both sides of the sign bit
             let far = *rng.pick(&[u64::MAX, u64::MAX - 1, 1u64 << 63, (1u64 << 63) - 1, (1u64 << 63) + (1u64 << 62),
